@@ -325,7 +325,8 @@ func (x *world) absorb(p string, rep sched.Report) string {
 		at = "finished"
 		ps.returned = true
 		if rep.Panic != nil {
-			ps.resp = Resp{St: "panic", Txid: -1, Code: fmt.Sprint(rep.Panic)}
+			ps.resp = Resp{St: "panic", Txid: -1}
+			x.emit(map[string]any{"ev": "panic", "p": p, "what": fmt.Sprint(rep.Panic)})
 		}
 		x.emit(map[string]any{"ev": "resp", "p": p, "st": ps.resp.St, "txid": ps.resp.Txid, "code": ps.resp.Code,
 			"dry": ps.req.Dry, "ik": ps.req.Ik, "kind": ps.req.Kind})
